@@ -153,12 +153,41 @@ theorem duration_close_std (F : StdRounding) (ns : ℕ) (hns : ns < 2 ^ 50) (fs 
   exact F.fl_rel _
 
 /-- [core] **Compressed stream shorter or longer than announced**: the `.cbin` reader exposes the number of samples the
-chunk file holds (`mtscomp.Reader.shape[0]`), whatever the `.meta` claims. -/
-theorem cbin_exposed (A : Arith T) (nc : Nat) (fs fts : T) (n : Nat)
+chunk file holds (`mtscomp.Reader.shape[0]`), whatever the `.meta` claims and **whatever sampling rate the `.ch` header
+carries** (`chfs`: streams are compressed at the nominal rate, the meta rate is calibrated later). -/
+theorem cbin_exposed (A : Arith T) (nc : Nat) (fs fts : T) (n : Nat) (chfs : T)
     (hfs : A.isZero fs = false) (hrt : RoundTrip A fs n) :
-    ∃ h', openCbin A (.ofMeta nc fs (some fts)) (n, nc) = .ok h' ∧ h'.nc = nc ∧ h'.nsOffline A = .ok n := by
-  obtain ⟨fts', ho, hns, _⟩ := openCbin_meta A nc fs fts n nc hfs hrt
+    ∃ h', openCbin A (.ofMeta nc fs (some fts)) ⟨n, nc, chfs⟩ = .ok h' ∧ h'.nc = nc ∧ h'.nsOffline A = .ok n := by
+  obtain ⟨fts', ho, hns, _⟩ := openCbin_meta A nc fs fts n nc chfs hfs hrt
   exact ⟨_, ho, rfl, by simp [Hdr.nsOffline, hns rfl]⟩
+
+/-- The outcome of opening a `.cbin` (sample count, duration, errors) does not depend on the `.ch` sampling rate at all. -/
+theorem cbin_independent_of_ch_rate (A : Arith T) (h : Hdr T) (n cnc : Nat) (r₁ r₂ : T) :
+    openCbin A h ⟨n, cnc, r₁⟩ = openCbin A h ⟨n, cnc, r₂⟩ := rfl
+
+/-- `cbin_exposed` in the standard model: every stream of fewer than 2⁵⁰ samples, every positive meta rate. -/
+theorem cbin_exposed_std (F : StdRounding) (nc : Nat) (fs fts : ℝ) (n : Nat) (chfs : ℝ)
+    (hfs : 0 < fs) (hn : n < 2 ^ 50) :
+    ∃ h', openCbin (realArith F) (.ofMeta nc fs (some fts)) ⟨n, nc, chfs⟩ = .ok h' ∧ h'.nc = nc ∧
+      h'.nsOffline (realArith F) = .ok n :=
+  cbin_exposed (realArith F) nc fs fts n chfs (by simp [realArith, hfs.ne']) (roundtrip_real F n hn fs hfs)
+
+/-- Why the duration must be rewritten with the META rate: the variant `ftsec = n_samples / sample_rate(.ch)` exposes
+12 samples for a one-sample stream compressed at 2500 Hz under 30000 Hz meta data announcing any other length —
+under every rounding function — while the code as it stands exposes the one sample. -/
+theorem cbin_ch_rate_counterexample (F : StdRounding) (fts : ℝ)
+    (hne : (F.rnd (F.fl (fts * 30000))).toNat ≠ 1) :
+    (∃ h', openCbinChRate (realArith F) (.ofMeta 1 30000 (some fts)) ⟨1, 1, 2500⟩ = .ok h' ∧
+      h'.nsOffline (realArith F) = .ok 12) ∧
+    (∃ h', openCbin (realArith F) (.ofMeta 1 30000 (some fts)) ⟨1, 1, 2500⟩ = .ok h' ∧
+      h'.nsOffline (realArith F) = .ok 1) := by
+  refine ⟨chRate_variant_wrong F fts hne, ?_⟩
+  obtain ⟨h', h1, _, h3⟩ := cbin_exposed_std F 1 30000 fts 1 2500 (by norm_num) (by norm_num)
+  exact ⟨h', h1, h3⟩
+
+/-- Non-vacuity of the counterexample's hypothesis: meta data announcing 2 samples (exact arithmetic). -/
+example : ((exactRounding).rnd ((exactRounding).fl ((2 / 30000 : ℝ) * 30000))).toNat ≠ 1 := by
+  simp [exactRounding]
 
 /-- [core] **Why the formula before the `fix:` commit failed** (`ftsec = size / itemsize / nc / fs`, then
 `round(ftsec · fs)`): a 7-byte file with 4-byte frames (one frame + ¾ frame of trailing bytes) gives `ns = 2` under
